@@ -171,6 +171,8 @@ def compile_props(pid, timeout=900):
 
 def cz(i):
     i = int(i)
+    if abs(i) >= 10 ** 30:  # huge decimal literals are slow to parse; hexadecimal ones are not
+        return f"(-{hex(-i)})%Z" if i < 0 else f"({hex(i)})%Z"
     return f"({i})%Z"
 
 
@@ -231,8 +233,18 @@ Require Import QV.Common.Corr.
 
 
 def _run_shard(args):
+    """Run one case shard. A shard that dies without a Coq diagnostic (killed by the OOM killer, failed to
+    launch under load) is retried; a genuine Coq error ("Error:" in the output) is returned at once."""
     idx, path, timeout = args
-    rc, out = coqc_file(path, timeout=timeout, cwd=os.path.dirname(path))
+    rc, out = 1, ""
+    for attempt in range(4):
+        try:
+            rc, out = coqc_file(path, timeout=timeout, cwd=os.path.dirname(path))
+        except Exception as e:  # launch failure
+            rc, out = 1, "launch failure: " + repr(e)
+        if rc == 0 or "Error:" in out or rc == 124:
+            break
+        time.sleep(2 + 3 * attempt)
     return idx, rc, out
 
 
